@@ -5,7 +5,8 @@
 From Coq Require Import List Reals QArith Qreals Lra Lia Bool.
 From TLV Require Import Base.Ops Base.Tensor Model.Prox Model.Constraints Model.ProxDispatch
   Proofs.ProxProofs Proofs.ProxProofsHard Proofs.ProxProofsRefute Proofs.ProxProofsSimplex Proofs.ProxProofsMono Proofs.ProxProofsIso
-  Proofs.ProxProofsSmooth Proofs.ProxProofsNormSp Proofs.ProxProofsMore Proofs.ProxProofsMatrix.
+  Proofs.ProxProofsSmooth Proofs.ProxProofsNormSp Proofs.ProxProofsMore Proofs.ProxProofsMatrix Proofs.ProxProofsUni
+  Proofs.ConstraintsProofsUni.
 Import ListNotations.
 Open Scope R_scope.
 
@@ -23,7 +24,9 @@ Definition prox_spec (k : kind) (p : R) (kk : nat) (aux : R) (Y X : list (list R
       p * sqrt (sumsq Rops y) + dist2 Rops y v / 2 <= p * sqrt (sumsq Rops z) + dist2 Rops z v / 2) Y X
   | KL2sq => 0 <= p -> on_flat (fun y v => forall z, length z = length v ->
       p * sumsq Rops y + dist2 Rops y v / 2 <= p * sumsq Rops z + dist2 Rops z v / 2) Y X
-  | KUnimodal => True                      (* deliberately unfixed operator: see unimodal_refuted / unimodal_feasible_partial *)
+  (* deliberately unfixed operator: not the nearest unimodal point (unimodal_refuted), but every output column IS unimodal, for any
+     number of columns (the global-maximum fill couples them: Proofs/ConstraintsProofsUni.unimodality_cols_feasible, builder of C11) *)
+  | KUnimodal => per_column (fun y v => unimodalP y /\ length y = length v) Y X
   | KNormalize => 0 < maxabs Rops (concat X) -> maxabs Rops (concat Y) = 1
   | KSimplex => 0 < p -> per_column (fun y v => Forall (fun x => 0 <= x) y /\ lsum Rops y = p /\
       forall z, length z = length v -> Forall (fun x => 0 <= x) z -> lsum Rops z = p -> dist2 Rops y v <= dist2 Rops z v) Y X
@@ -55,6 +58,25 @@ Proof. unfold normalized_sparsity_with. rewrite map_length. apply hard_length. Q
 Lemma l2sq_length t v : length (l2_square_prox Rops t v) = length v.
 Proof. apply map_length. Qed.
 
+Lemma Forall2_of_lengths (Q : list R -> Prop) : forall l1 l2 : list (list R), Forall Q l1 -> map (@length R) l1 = map (@length R) l2 ->
+  Forall2 (fun y v => Q y /\ length y = length v) l1 l2.
+Proof.
+  induction l1 as [|a l1 IH]; intros [|b l2] HF HL; try discriminate HL; [constructor|].
+  inversion HF; subst. cbn [map] in HL. injection HL as Hab HL. constructor; [split; assumption | apply IH; assumption].
+Qed.
+Lemma unimodal_lift n c X : (1 <= n)%nat -> (1 <= c)%nat -> rect n c X ->
+  per_column (fun y v => unimodalP y /\ length y = length v) (cols_of Rops (unimodality_cols Rops (cols_of Rops X))) X.
+Proof.
+  intros Hn Hc HX. unfold per_column. destruct (cols_of_rect n c X Hn HX) as [LC FC].
+  destruct (unimodality_cols_feasible (cols_of Rops X)) as [HU HL].
+  assert (RU : rect c n (unimodality_cols Rops (cols_of Rops X))).
+  { split.
+    - rewrite <- LC. rewrite <- (map_length (@length R) (unimodality_cols Rops (cols_of Rops X))), HL, map_length. reflexivity.
+    - apply Forall_forall. intros y Hy. apply (in_map (@length R)) in Hy. rewrite HL in Hy. apply in_map_iff in Hy.
+      destruct Hy as (v & <- & Hv). rewrite Forall_forall in FC. apply FC, Hv. }
+  rewrite (transpose_involutive c n _ Hc Hn RU). apply Forall2_of_lengths; assumption.
+Qed.
+
 (* every branch of the dispatch *)
 Theorem prun_sound k p aux nr nc X : (1 <= nr)%nat -> (1 <= nc)%nat -> rect nr nc X ->
   prox_spec k (Q2R p) (rank_bound p) aux (prun Rops (pop_of Q2R k p aux) X) X.
@@ -65,7 +87,7 @@ Proof.
   - intros Hp ->. apply (flat_lift nr nc); auto; [intros v; apply ProxProofsFirm.l2_prox_length|].
     intros z Lz. apply (l2_optimal_sqrt (Q2R p) (concat X) z Hp Lz).
   - intros Hp. apply (flat_lift nr nc); auto; [apply l2sq_length|]. intros z Lz. apply l2sq_optimal; assumption.
-  - exact I.
+  - apply (unimodal_lift nr nc); assumption.
   - intros Hm. unfold on_flat. rewrite (flatwise_flat nr nc _ X Hn Hc HX) by (unfold normalize; apply map_length).
     apply maxnorm_partial, Hm.
   - intros Hp. apply (col_lift nr nc); auto; [apply simplex_length|]. intros v Lv.
@@ -123,4 +145,18 @@ Proof.
   - intros [H|(o' & H & E)]; [discriminate H|]. injection H as <-. rewrite E. reflexivity.
   - intros _. left. reflexivity.
   - reflexivity.
+Qed.
+
+(* `order` as a Python int: a non-negative order below n_const is that mode, -j (1 <= j <= n_const) is mode n_const - j, anything else raises *)
+Theorem selected_pop_z_spec {F} (conv : Q -> F) n (order : Z) specs aux :
+  ((0 <= order < Z.of_nat n)%Z -> selected_pop_z conv (Some n) order specs aux = selected_pop conv (Some n) (Z.to_nat order) specs aux) /\
+  ((- Z.of_nat n <= order < 0)%Z -> selected_pop_z conv (Some n) order specs aux = selected_pop conv (Some n) (Z.to_nat (order + Z.of_nat n)) specs aux) /\
+  ((order < - Z.of_nat n \/ Z.of_nat n <= order)%Z -> selected_pop_z conv (Some n) order specs aux = Err).
+Proof.
+  unfold selected_pop_z, resolve. repeat split; intros H.
+  - destruct (0 <=? order)%Z eqn:E1; [|apply Z.leb_gt in E1; lia]. destruct (order <? Z.of_nat n)%Z eqn:E2; [reflexivity | apply Z.ltb_ge in E2; lia].
+  - destruct (0 <=? order)%Z eqn:E1; [apply Z.leb_le in E1; lia|]. destruct (- Z.of_nat n <=? order)%Z eqn:E2; [reflexivity | apply Z.leb_gt in E2; lia].
+  - destruct (0 <=? order)%Z eqn:E1.
+    + apply Z.leb_le in E1. destruct (order <? Z.of_nat n)%Z eqn:E2; [apply Z.ltb_lt in E2; lia | reflexivity].
+    + apply Z.leb_gt in E1. destruct (- Z.of_nat n <=? order)%Z eqn:E2; [apply Z.leb_le in E2; lia | reflexivity].
 Qed.
